@@ -101,7 +101,7 @@ theorem minedStep_ok (c : Ctx) (addrs : List Addr) (acc : Store × List (Nat × 
     obtain ⟨hget, _, _⟩ := MW.Lemmas.RemoveChar.txRecordAt_get hrec
     obtain ⟨tx, htx⟩ := h rec.1 rec.2 hget
     simp only [htx]
-    by_cases hr : Model.Remove.removable c.own acc.1 addrs tx = true
+    by_cases hr : (Model.Remove.removable c.own acc.1 addrs tx && !Model.Remove.inUse acc.1 rec.1) = true
     · rw [if_pos hr]
       exact ⟨_, rfl, fetchable_erase h rec.1⟩
     · rw [if_neg hr]
